@@ -560,3 +560,41 @@ def run(chk: Check, eng: Engine) -> None:
     rule_c(chk, eng)
     rule_d(chk, eng)
     rule_e(chk, eng)
+
+
+# ------------------------------------------------------------------ self-test variants
+from ..mutants import M  # noqa: E402
+
+_EV = "src/fandango/evolution/evaluation.py"
+_CMP = "src/fandango/constraints/comparison.py"
+_EXP = "src/fandango/constraints/expression.py"
+_ALG = "src/fandango/evolution/algorithm.py"
+_POP = "src/fandango/evolution/population.py"
+_API = "src/fandango/api.py"
+MUTANTS = [
+    M("yield-before-test", _EV, "        if fitness >= self._expected_fitness and key not in self._solution_set:\n            self._solution_set.add(key)\n            yield individual\n",
+      "        if key not in self._solution_set:\n            self._solution_set.add(key)\n            yield individual\n", "R02-a"),
+    M("rep-bounds-only-when-hard-solved", _EV, "        if len(self._repetition_bounds_constraints) > 0:\n            # all hard",
+      "        if len(self._repetition_bounds_constraints) > 0 and not fully_solved_so_far:\n            # all hard", "R02-a"),
+    M("classification-drops-unknown", _EV, "            else:\n                raise ValueError(f\"Invalid constraint type: {type(constraint)}\")\n",
+      "            else:\n                LOGGER.warning(f\"Invalid constraint type: {type(constraint)}\")\n", "R02-a"),
+    M("evaluate-first-constraints-only", _EV, "        return self._evaluate_constraints(individual, self._hard_constraints)",
+      "        return self._evaluate_constraints(individual, self._hard_constraints[:8])", "R02-a"),
+    M("evaluator-handler-counts-success", _EV, "                print_exception(e)\n\n        # normalize to 0 <= fitness <= 1",
+      "                print_exception(e)\n                fitness += 1.0\n\n        # normalize to 0 <= fitness <= 1", "R02-b"),
+    M("comparison-handler-skips", _CMP, "                print_exception(e, f\"Evaluation failed: {self._right}\")\n                # a combination whose evaluation raises is a failed combination\n                fitness_values.append(0.0)\n",
+      "                print_exception(e, f\"Evaluation failed: {self._right}\")\n", "R02-c"),
+    M("expression-total-inside-try", _EXP, "                print_exception(e, f\"Evaluation failed: {self.expression}\")\n\n            total += 1\n",
+      "                print_exception(e, f\"Evaluation failed: {self.expression}\")\n                continue\n\n            total += 1\n", "R02-c"),
+    M("refill-yields-candidate", _POP, "                    yield from found_solution\n                    yield from new_found_solution\n",
+      "                    yield from found_solution\n                    yield from new_found_solution\n                    yield candidate\n", "R02-d"),
+    M("crossover-yields-child", _ALG, "                    yield from self.evaluator.evaluate_individual(child)\n                else:\n",
+      "                    yield from self.evaluator.evaluate_individual(child)\n                    yield child\n                else:\n", "R02-d"),
+    M("padding-without-best-effort", _API, "            if warnings_are_errors:\n                raise FandangoFailedError(\n                    \"Failed to find the required number of perfect solutions\"\n                )\n            elif best_effort:\n",
+      "            if warnings_are_errors:\n                raise FandangoFailedError(\n                    \"Failed to find the required number of perfect solutions\"\n                )\n            else:\n", "R02-e"),
+]
+TWINS = [
+    M("twin-handler-extra-log", _EV, "                print_exception(e)\n\n        # normalize to 0 <= fitness <= 1", "                print_exception(e)\n                LOGGER.debug(\"continuing\")\n\n        # normalize to 0 <= fitness <= 1", None),
+    M("twin-comparison-order", _CMP, "                fitness_values.append(0.0)\n                for _, container in combination:\n                    failing_trees.extend(\n                        FailingTree(node, self) for node in container.get_trees()\n                    )\n                continue\n\n            try:\n                right",
+      "                for _, container in combination:\n                    failing_trees.extend(\n                        FailingTree(node, self) for node in container.get_trees()\n                    )\n                fitness_values.append(0.0)\n                continue\n\n            try:\n                right", None),
+]
